@@ -179,7 +179,7 @@ theorem ResStep.runOn {parts minPer : Nat} {split : Option (List (Oid × Nat × 
     {c c' : Cluster} (h : ResStep parts minPer split oid E c c') : c'.runOn = c.runOn := by
   obtain ⟨c1, h1, h2⟩ := h
   have e1 : c1.runOn = c.runOn := by
-    rcases h1 with rfl | ⟨_, _, n, _, _, hpb⟩
+    rcases h1 with rfl | ⟨_, _, n, _, _, _, hpb⟩
     · rfl
     · have := provisionBatch_runOn c n oid
       rw [hpb] at this; exact this
@@ -192,7 +192,7 @@ theorem ResStep.sameO {parts minPer : Nat} {split : Option (List (Oid × Nat × 
     {c c' : Cluster} (h : ResStep parts minPer split oid E c c') (o : Oid) (hne : o ≠ oid) : SameO c c' o := by
   obtain ⟨c1, h1, h2⟩ := h
   have e1 : SameO c c1 o := by
-    rcases h1 with rfl | ⟨_, _, n, _, _, hpb⟩
+    rcases h1 with rfl | ⟨_, _, n, _, _, _, hpb⟩
     · exact SameO.refl _ o
     · have := provisionBatch_sameO c n oid o hne
       rw [hpb] at this; exact this
